@@ -46,6 +46,7 @@ func checkC01(c *Ctx) {
 	r.Rule("C01.R1a-count-before-err", "every Read: the returned count is used on a path that does not depend on that Read's error", 2)
 	r.Rule("C01.R1b-read-in-loop", "every Read sits in a loop whose exits never test the raw count of a single Read (short or empty reads are not 'end of data')", 2)
 	r.Rule("C01.R1c-segment-fill", "segment fill loop: exits only on count>=bound or err!=nil; read window capped at bound; look-ahead decision equals count>=bound with bound=segmentSize+1", 3)
+	r.Rule("C01.R1d-success-err-nil", "header reader: a return that delivers the parsed header carries a nil error, never the error of the last Read (data may arrive together with io.EOF)", 1)
 	r.Rule("C01.R5-segment-args", "per-segment call: length, counter (0, +1), last flag = no look-ahead byte, look-ahead byte carried to the next segment, nothing after last", 5)
 	r.Rule("C01.R6-empty-message", "an empty input produces no segment and ends in a clean Close", 2)
 	r.Rule("C01.R2-tables", "id/name tables agree with each other and with the README; JSON goes through them; getCipher covers the accepted ciphers with the AEAD the spec names", 27)
@@ -71,6 +72,7 @@ func checkC01(c *Ctx) {
 	x.spec = spec
 
 	x.readSites()
+	x.headerSuccessErr()
 	x.segmentLoop()
 	x.tables()
 	x.specConstants()
@@ -337,7 +339,7 @@ func (x *c01Ctx) segmentLoop() {
 	}
 
 	// look-ahead decision: controls `last`
-	moreSucc, lookIf, why := x.lookahead(lastArg, acc, *bound)
+	moreSucc, lookIf, why := x.lookahead(lastArg, acc, *bound, site.err)
 	switch {
 	case why == "const":
 		r.Violation("C01.R5-segment-args", fname+" last flag", segPos, "the 'last' argument of the per-segment call is a constant: the nonce's last-segment byte no longer says whether this is the final segment (spec: 0x01 only on the last segment)")
@@ -389,7 +391,10 @@ func c01NoBound(l *c01Lin) string {
 // lookahead relates the `last` value to an If comparing the accumulated count
 // with the bound. Returns the successor block on which "count >= bound"
 // (more data follows) holds, the If, and a violation text (or "").
-func (x *c01Ctx) lookahead(last ssa.Value, acc map[ssa.Value]bool, bound c01Lin) (*ssa.BasicBlock, *ssa.If, string) {
+// errDriven is the violation text for a finality decision taken from the Read error.
+const c01ErrDriven = "whether this is the last segment (and whether a look-ahead byte is carried over) is decided from the Read error instead of from the filled count: io.Reader may return the byte that fills the look-ahead together with io.EOF, so the error says nothing about whether the look-ahead byte was read — a plaintext of k*65536+1 bytes from such a reader is sealed as one oversized last segment (spec: segments are 65,536 bytes, only the last may be shorter)"
+
+func (x *c01Ctx) lookahead(last ssa.Value, acc map[ssa.Value]bool, bound c01Lin, errv ssa.Value) (*ssa.BasicBlock, *ssa.If, string) {
 	if _, ok := last.(*ssa.Const); ok {
 		return nil, nil, "const"
 	}
@@ -443,6 +448,9 @@ func (x *c01Ctx) lookahead(last ssa.Value, acc map[ssa.Value]bool, bound c01Lin)
 		}
 		return 0
 	}
+	if _, isPhi := last.(*ssa.Phi); !isPhi && errv != nil && c01ErrTest(last, errv) {
+		return nil, nil, c01ErrDriven
+	}
 	switch v := last.(type) {
 	case *ssa.Phi:
 		idom := v.Block().Idom()
@@ -455,6 +463,14 @@ func (x *c01Ctx) lookahead(last ssa.Value, acc map[ssa.Value]bool, bound c01Lin)
 		}
 		k := classify(ifi.Cond)
 		if k == 0 {
+			if errv != nil && c01ErrTest(ifi.Cond, errv) {
+				return nil, ifi, c01ErrDriven
+			}
+			for _, e := range v.Edges {
+				if _, isK := e.(*ssa.Const); !isK && errv != nil && c01ErrTest(e, errv) {
+					return nil, ifi, c01ErrDriven
+				}
+			}
 			return nil, nil, ""
 		}
 		if k == 2 {
@@ -488,6 +504,9 @@ func (x *c01Ctx) lookahead(last ssa.Value, acc map[ssa.Value]bool, bound c01Lin)
 		}
 		return more, ifi, ""
 	case *ssa.BinOp, *ssa.UnOp:
+		if errv != nil && c01ErrTest(v, errv) {
+			return nil, nil, c01ErrDriven
+		}
 		k := classify(v)
 		if k == -1 {
 			// last := count < bound ; find an If on the same comparison for the length rule
@@ -915,4 +934,174 @@ func (x *c01Ctx) carryOver(ps *ssa.Function, fname string, site *c01ReadSite, lo
 		}
 	}
 	r.OK("C01.R5-segment-args", cons, pos, "buffer[0] = buffer[count-1] of the previous fill, count restarts at 1")
+}
+
+// c01CarriesErr: v is (a phi / local-cell copy of) one of the given Read errors.
+func c01CarriesErr(v ssa.Value, errs map[ssa.Value]bool) bool {
+	seen := map[ssa.Value]bool{}
+	var walk func(x ssa.Value) bool
+	walk = func(x ssa.Value) bool {
+		if errs[x] {
+			return true
+		}
+		if seen[x] {
+			return false
+		}
+		seen[x] = true
+		switch y := x.(type) {
+		case *ssa.Phi:
+			for _, e := range y.Edges {
+				if walk(e) {
+					return true
+				}
+			}
+		case *ssa.UnOp:
+			if a, ok := y.X.(*ssa.Alloc); ok && y.Op == token.MUL {
+				for _, s := range c01Stores(a) {
+					if walk(s) {
+						return true
+					}
+				}
+			}
+		case *ssa.ChangeInterface:
+			return walk(y.X)
+		}
+		return false
+	}
+	return walk(v)
+}
+
+// headerSuccessErr (R1d): in the function that reads the header, a return
+// whose data results are not nil constants must return a nil error: the
+// constant, a value known nil on that path, or a cell that cannot hold a
+// Read error there.
+func (x *c01Ctx) headerSuccessErr() {
+	r, p := x.r, x.p
+	rh := p.Func(c01Rel, "readHeader")
+	fname := FuncName(p, rh)
+	errs := map[ssa.Value]bool{}
+	for _, s := range x.collectReads() {
+		if s.fn == rh && s.err != nil {
+			errs[s.err] = true
+		}
+	}
+	if len(errs) == 0 {
+		return // R1a already reports a Read without error use / R7 reports no Read
+	}
+	res := rh.Signature.Results()
+	errIdx := res.Len() - 1
+	if errIdx < 1 || !types.Identical(res.At(errIdx).Type(), types.Universe.Lookup("error").Type()) {
+		r.Undecide("C01.R1d: %s no longer returns (data…, error)", fname)
+		return
+	}
+	// value of result i at a return: through the named-result cell, the last
+	// store in the returning block (nil = content of the cell on entry to the block)
+	type resv struct {
+		val  ssa.Value  // stored/returned value (nil if only the cell is known)
+		cell *ssa.Alloc // named-result cell, if any
+	}
+	resolve := func(ret *ssa.Return, i int) resv {
+		v := ret.Results[i]
+		u, ok := v.(*ssa.UnOp)
+		if !ok || u.Op != token.MUL {
+			return resv{val: v}
+		}
+		a, ok := u.X.(*ssa.Alloc)
+		if !ok {
+			return resv{val: v}
+		}
+		var last ssa.Value
+		for _, in := range ret.Block().Instrs {
+			if st, ok := in.(*ssa.Store); ok && st.Addr == ssa.Value(a) {
+				last = st.Val
+			}
+		}
+		// `*cell = *cell` (return x with x the named result) keeps the content
+		if lu, ok := last.(*ssa.UnOp); ok && lu.Op == token.MUL && lu.X == ssa.Value(a) {
+			last = nil
+		}
+		return resv{val: last, cell: a}
+	}
+	n := 0
+	for _, b := range rh.Blocks {
+		if len(b.Instrs) == 0 || len(b.Preds) == 0 && b.Index != 0 {
+			continue
+		}
+		ret, ok := b.Instrs[len(b.Instrs)-1].(*ssa.Return)
+		if !ok || len(ret.Results) != res.Len() {
+			continue
+		}
+		success := true
+		for i := 0; i < errIdx; i++ {
+			rv := resolve(ret, i)
+			if rv.val != nil && isNilConst(rv.val) {
+				success = false
+			}
+		}
+		if !success {
+			continue
+		}
+		n++
+		cons := fname + " success return"
+		pos := p.Pos(instrPos(ret))
+		ev := resolve(ret, errIdx)
+		bad := "the error returned together with the parsed header can be the error of the last Read: when the source delivers the end of the header together with io.EOF (header-only / empty-message documents, short documents handed over whole) the header is complete but Decrypt fails with 'invalid header: EOF'; io.Reader allows (n>0, io.EOF), so on the path where the header was found the error must be nil"
+		switch {
+		case ev.val != nil && isNilConst(ev.val):
+			r.OK("C01.R1d-success-err-nil", cons, pos, "explicit nil error")
+		case ev.val != nil && errKnownNil(b, ev.val):
+			r.OK("C01.R1d-success-err-nil", cons, pos, "error known nil on this path")
+		case ev.val != nil:
+			if c01CarriesErr(ev.val, errs) {
+				r.Violation("C01.R1d-success-err-nil", cons, pos, bad)
+			} else {
+				r.OK("C01.R1d-success-err-nil", cons, pos, "error result is not a Read error")
+			}
+		default:
+			// content of the named-result cell: known nil by a dominating test on a load of the cell
+			// that no later store can change, or no Read error can reach this block
+			knownNil := false
+			for _, dc := range domConds(b) {
+				cmp, ok := decodeCond(dc.If.Cond, dc.Branch)
+				if !ok || cmp.Op != token.EQL {
+					continue
+				}
+				lv := cmp.X
+				if isNilConst(lv) {
+					lv = cmp.Y
+				} else if !isNilConst(cmp.Y) {
+					continue
+				}
+				lu, ok := lv.(*ssa.UnOp)
+				if !ok || lu.Op != token.MUL || lu.X != ssa.Value(ev.cell) {
+					continue
+				}
+				// no store to the cell after the test on the way here
+				ib := dc.If.Block()
+				succ := ib.Succs[1]
+				if dc.Branch {
+					succ = ib.Succs[0]
+				}
+				clean := true
+				for _, u := range refs(ev.cell) {
+					if st, ok := u.(*ssa.Store); ok && st.Addr == ssa.Value(ev.cell) && succ.Dominates(st.Block()) && reachableFrom(st.Block(), nil)[b] {
+						clean = false
+					}
+				}
+				if clean {
+					knownNil = true
+				}
+			}
+			readErrReaches := false
+			for _, u := range refs(ev.cell) {
+				if st, ok := u.(*ssa.Store); ok && st.Addr == ssa.Value(ev.cell) && c01CarriesErr(st.Val, errs) && reachableFrom(st.Block(), nil)[b] {
+					readErrReaches = true
+				}
+			}
+			r.Check(knownNil || !readErrReaches, "C01.R1d-success-err-nil", cons, pos, "error result cannot be a Read error here", bad)
+		}
+	}
+	if n == 0 {
+		r.Undecide("C01.R1d: no return of %s delivers non-nil header data", fname)
+	}
 }
